@@ -133,6 +133,7 @@ PROPS["C14"] = dict(
     quick=dict(n=3600, shards=16),
     thorough=dict(n=80000, shards=64, run_timeout=10800, coq_case_timeout=7200),
     trusted_base=[
+        "round 8: coq/C14/Directed.v: expr_vars (the variables an ORDER BY criterion reads, BOUND's included) and the nanosecond timeline of dateTimes are hand-written from sparql/src/expression.rs and value/_xsd_date_time.rs; dateTime fractions beyond 9 digits are truncated by the parser and not generated",
         "model coq/C14/Model.v of order_by/cmp_bindings_with (exec.rs), sparql_cmp/sparql_order_by/order_by_class (expression.rs), SparqlValue::partial_cmp/order_by_class/order_by_cmp (value.rs), SparqlNumber coercing comparison and exact_cmp (_number.rs), XsdDateTime partial_cmp/timeline_cmp (hand-written); Term::cmp from Common/Term.v (C02)",
         "lexical form -> value (Rust integer/float parsers, BigDecimal, dateTime regex + chrono) is not modelled: each pool term is given to the model with the value the implementation parsed (Debug rendering of ResultTerm::value())",
         "slice::sort_unstable_by returns a sorted permutation when the comparator is a total preorder (std contract); the harness checks permutation + sortedness of every output",
@@ -152,6 +153,7 @@ PROPS["C17"] = dict(
     quick=dict(n=2720, shards=16),
     thorough=dict(n=20000, shards=64, run_timeout=10800, coq_case_timeout=7200),
     trusted_base=[
+        "round 8: coq/C17/Deep.v: steps_needed (inner slashes of the base after the common prefix) and the clone / clone_from histories (hist, state, origin) are hand-written; Relativizer's Clone is the derived one (a hand-written Clone would have to be re-transcribed)",
         "model coq/C17/Model.v of iri/src/relativize.rs and of oxiri 0.2.11 IriParser (positions, resolution) behind sophia_iri::resolve::BaseIri, hand-written over UTF-8 bytes; RFC 3986 5.2 transcribed as resolve_rfc",
         "oxiri's character-level validation is not modelled (the harness feeds valid IRIs/references only)",
     ],
@@ -200,6 +202,7 @@ PROPS["C13"] = dict(
     quick=dict(n=700, shards=16),
     thorough=dict(n=40000, shards=128, run_timeout=10800, coq_case_timeout=7200),
     trusted_base=[
+        "round 8: coq/C13/Fresh.v abstracts a call of BNODE() by a placeholder node and checks the labels the engine created with fresh_ok (pairwise distinct, disjoint from the dataset); only queries where BNODE is the whole BIND/SELECT expression go through it, the other created-node cases are judged by the Rust oracle alone; prepared-query reuse (a query run on another dataset first) is an oracle-only check",
         "model coq/C13/Model.v of sparql/src/{wrapper,exec,bgp,binding,matcher}.rs, matcher/_any_pattern.rs and NumModel.v of value/_number.rs (hand-written, after the fix: commits; pre-fix variants kept as select0/graph0/...)",
         "spargebra's parsing/translation is trusted: the algebra given to the model and the oracle is read back from the Debug rendering of the parsed query",
         "Dataset::quads_matching / graph_names contract (filter by matchers; inmem iteration order reproduced exactly for OFFSET/LIMIT cases); dataset iterator errors not modelled",
@@ -271,7 +274,7 @@ PROPS["C05"] = dict(
     level="proof", translators=[translate.gen_consts], runs=[dict(bin="c05")],
     quick=dict(n=1200, shards=32),
     thorough=dict(n=8000, shards=64, args=["--thorough"], run_timeout=10800, coq_case_timeout=7200),
-    trusted_base=_C05_MODEL,
+    trusted_base=_C05_MODEL + ["round 8: coq/C05/Alias.v models relabellings of the input (any injective map on blank node labels, including labels of the form c14nN / bN) and re-reading of a canonical document; the label-shape predicate canonical_shaped is hand-written from the identifier issuer's format"],
     assumptions=["datasets well-formed (wf_quad: IRIs without '>', labels/tags without space, IRI predicates, graph names IRI or blank)",
                  "invariance proved under no-top-ties (relabelling) or distinct first-degree hashes (relabelling + order); unrestricted invariance refuted for RDFC-1.0 itself (known finding)"],
 )
@@ -326,6 +329,7 @@ PROPS["C18"] = dict(
     quick=dict(n=760, shards=16),
     thorough=dict(n=20000, shards=128, run_timeout=10800, coq_case_timeout=7200),
     trusted_base=[
+        "round 8: coq/C18/Refuse.v: writable / must_refuse transcribe check_predicate and the character check of the Checked wrapper; is_qname / wf_ok and the harness's lexical_findings are hand-written from the XML 1.0 productions Char, Name, QName (Namespaces in XML constraints on reserved namespace names are NOT checked)",
         "coq/C18/Model.v: hand transcription of convert_triple / serialize_triples (and the Checked wrapper of the fix) and of rio_xml 0.8.6 formatter.rs/parser.rs and quick-xml 0.36.2 escape.rs/writer.rs; documents compared byte for byte, both parses compared triple by triple",
         "strict reader written from XML 1.0 (2.2, 2.11, 3.3.3, 4.1), Namespaces in XML and the RDF/XML rules for the formatter's vocabulary; cross-checked against an independent Rust reference reader in c18.rs",
         "XML lexing (bytes to events) is not modelled; pads are proved never adjacent to text",
